@@ -2,6 +2,7 @@
    Statements about the model (Model/Time.v) closed by `exact`; Print Assumptions at the end. *)
 From Coq Require Import ZArith List Bool.
 From Tevec Require Import Base.Prelude Spec.Calendar Model.Time Proofs.Time Proofs.Calendar Model.TimeAccess Proofs.TimeAccess.
+From Tevec Require Import Proofs.Audit16.
 Local Open Scope Z_scope.
 
 (* ---- (1) NaT is preserved by every conversion ------------------------------------------------ *)
@@ -181,6 +182,193 @@ Example C16_ex_try_from :
   /\ is_not_nat (-1) = true /\ Some 5 <> Some NaT /\ into_opt_i64 (from_opt_i64 (Some 5)) = Some 5.
 Proof. repeat split; discriminate. Qed.
 
+(* ==== the audit (notes/C16.md "Audit matrix"; Proofs/Audit16.v) ==================================================== *)
+(* ---- (8) all 4 x 4 unit pairs as one closed form; the rejected inputs exactly ------------------------------------ *)
+Theorem C16_unit_pairs_trichotomy :
+  forall u t, (u = t /\ finer u t = false /\ finer t u = false)
+           \/ (u <> t /\ finer u t = true /\ finer t u = false)
+           \/ (u <> t /\ finer u t = false /\ finer t u = true).
+Proof. exact unit_trichotomy. Qed.
+
+(* no `finer` hypothesis: identity on the diagonal, NaT kept, checked multiplication by the ratio when refining, floor
+   division by the ratio when coarsening — for each of the 16 pairs and every i64 *)
+Theorem C16_into_unit_closed_form : forall u t x, into_unit u t x = conv_spec u t x.
+Proof. exact into_unit_closed_form. Qed.
+
+Theorem C16_into_unit_panics_iff :
+  forall u t x k, into_unit u t x = Panic k <->
+    (k = Overflow /\ finer u t = true /\ x <> NaT /\ in_i64 (x * ratio u t) = false).
+Proof. exact into_unit_panics_iff. Qed.
+
+Theorem C16_into_unit_never_unimplemented : forall u t x, into_unit u t x <> Panic OtherPanic.
+Proof. exact into_unit_never_unimplemented. Qed.
+
+Theorem C16_into_unit_returns_iff :
+  forall u t x, (exists y, into_unit u t x = Ok y) <->
+    (finer u t = true -> x <> NaT -> in_i64 (x * ratio u t) = true).
+Proof. exact into_unit_returns_iff. Qed.
+
+(* ---- (9) what a unit change must NOT do --------------------------------------------------------------------------- *)
+Theorem C16_valid_stays_valid : forall u t x, in_i64 x = true -> (into_unit u t x = Ok NaT <-> x = NaT).
+Proof. exact into_unit_nat_iff. Qed.
+
+Theorem C16_conversion_monotone :
+  forall u t x x' y y', x <> NaT -> x' <> NaT -> x <= x' -> into_unit u t x = Ok y -> into_unit u t x' = Ok y' ->
+    y <= y' /\ (finer u t = true -> x < x' -> y < y').
+Proof. exact into_unit_monotone. Qed.
+
+Theorem C16_coarsen_compose :
+  forall u t s x, finer t u = true -> finer s t = true -> in_i64 x = true ->
+    (do y <- into_unit u t x; into_unit t s y) = into_unit u s x.
+Proof. exact into_unit_coarsen_compose. Qed.
+
+(* the other order of "to a finer unit and back": coarsen first. NOT the identity *)
+Theorem C16_coarsen_refine :
+  forall u t x, finer t u = true -> x <> NaT -> in_i64 x = true ->
+    into_unit u t x = Ok (x / ratio t u) /\ into_unit t u (x / ratio t u) = chk64 (x - x mod ratio t u).
+Proof. exact into_unit_coarsen_refine. Qed.
+
+Theorem C16_coarsen_refine_identity_iff :
+  forall u t x, finer t u = true -> x <> NaT -> in_i64 x = true ->
+    (into_unit t u (x / ratio t u) = Ok x <-> x mod ratio t u = 0).
+Proof. exact into_unit_coarsen_refine_identity_iff. Qed.
+
+(* ---- (10) "exactly as the calendar library does" for the REFINING pairs and for all pairs at once ----------------- *)
+Theorem C16_refine_as_chrono :
+  forall u t x c, finer u t = true -> as_cr u x = Some c ->
+    from_cr t c = Ok (if in_i64 (x * ratio u t) then x * ratio u t else NaT)
+    /\ (t <> Nano -> in_i64 (x * ratio u t) = true).
+Proof. exact into_unit_refine_chrono. Qed.
+
+Theorem C16_refine_chrono_differs :
+  forall u t x c, finer u t = true -> as_cr u x = Some c -> in_i64 (x * ratio u t) = false ->
+    t = Nano /\ from_cr t c = Ok NaT /\ into_unit u t x = Panic Overflow.
+Proof. exact into_unit_refine_chrono_differs. Qed.
+
+Theorem C16_as_chrono_all_pairs :
+  forall u t x c y, as_cr u x = Some c -> in_i64 x = true -> into_unit u t x = Ok y -> from_cr t c = Ok y.
+Proof. exact into_unit_as_chrono_all_pairs. Qed.
+
+(* ---- (11) as_cr: None exactly on NaT and outside chrono's date range; the getters reconstruct the instant -------- *)
+Theorem C16_as_cr_none_iff :
+  forall u x, as_cr u x = None <-> (x = NaT \/ (u <> Nano /\ date_in_range (x / per_sec u / SECS_PER_DAY) = false)).
+Proof. exact as_cr_none_iff. Qed.
+
+Theorem C16_as_cr_nano_none_iff : forall x, as_cr Nano x = None <-> x = NaT.
+Proof. exact as_cr_nano_none_iff. Qed.
+
+Theorem C16_fields_reconstruct :
+  forall u x c, as_cr u x = Some c ->
+    exists y m d,
+      dt_field cr_year u x = Some y /\ dt_field cr_month u x = Some m /\ dt_field cr_dom u x = Some d
+      /\ dt_field cr_hour u x = Some (cr_hour c) /\ dt_field cr_minute u x = Some (cr_minute c)
+      /\ dt_field cr_second u x = Some (cr_second c)
+      /\ valid_civil (y, m, d)
+      /\ 0 <= cr_hour c < 24 /\ 0 <= cr_minute c < 60 /\ 0 <= cr_second c < 60 /\ 0 <= cr_nanos c < 1000000000
+      /\ ((days_of_civil (y, m, d) * 86400 + cr_hour c * 3600 + cr_minute c * 60 + cr_second c) * 1000000000
+          + cr_nanos c = instant_ns u x).
+Proof. exact fields_reconstruct. Qed.
+
+(* ---- (12) Default, From<NaiveDateTime / Option / NaiveDate / Duration / Option<Duration>>, the Cast views --------- *)
+Theorem C16_defaults_and_none :
+  dt_default = NaT /\ td_is_nat td_default = true /\ is_nat time_default = false
+  /\ (forall u, from_opt_naive u None = Ok NaT) /\ td_is_nat (td_from_opt_dur None) = true
+  /\ from_opt_i64 None = NaT /\ time_from_opt_i64 None = NaT /\ td_is_nat (td_from_opt_i64 None) = true.
+Proof. exact defaults_and_none. Qed.
+
+Theorem C16_from_some_is_plain :
+  (forall u c, from_opt_naive u (Some c) = from_cr u c) /\ (forall u c, from_naive u c = from_cr u c)
+  /\ (forall ns, td_from_opt_dur (Some ns) = mktd 0 ns /\ td_is_nat (td_from_dur ns) = false)
+  /\ (forall v, time_from_opt_i64 (Some v) = v) /\ (forall v, from_opt_i64 (Some v) = v).
+Proof. exact from_some_is_plain. Qed.
+
+Theorem C16_from_naive_date_value :
+  forall u day, from_naive_date u day =
+    Ok (if unit_eqb u Nano && negb (in_i64 (day * 86400 * per_sec u)) then NaT else day * 86400 * per_sec u).
+Proof. exact from_naive_date_value. Qed.
+
+Theorem C16_from_naive_date_fields :
+  forall u day x, date_in_range day = true -> from_naive_date u day = Ok x -> x <> NaT ->
+    as_cr u x = Some (mkcr (day * SECS_PER_DAY) 0)
+    /\ (exists y m d, civil_of_days day = (y, m, d)
+         /\ dt_field cr_year u x = Some y /\ dt_field cr_month u x = Some m /\ dt_field cr_dom u x = Some d)
+    /\ dt_field cr_hour u x = Some 0 /\ dt_field cr_minute u x = Some 0 /\ dt_field cr_second u x = Some 0.
+Proof. exact from_naive_date_fields. Qed.
+
+Theorem C16_cast_views :
+  (forall x, dt_cast_i64 x = x) /\ (forall x, dt_cast_opt_i64 x = into_opt_i64 x) /\ dt_cast_opt_i64 NaT = None
+  /\ (forall u t x, dt_cast_unit u t x = into_unit u t x) /\ (forall u t, dt_cast_unit u t NaT = Ok NaT)
+  /\ (forall t, time_cast_opt_i64 t = into_opt_i64 t) /\ time_cast_opt_i64 NaT = None.
+Proof. exact cast_views. Qed.
+
+(* ---- (13) NaT operands where the result type has no NaT; the converse of absorption is false ---------------------- *)
+Theorem C16_nat_div_panics : forall a b, td_is_nat a = true \/ td_is_nat b = true -> td_div a b = Panic OtherPanic.
+Proof. exact td_div_nat_operand. Qed.
+
+Theorem C16_nat_trunc_duration :
+  forall u x d, td_is_nat d = true ->
+    dt_trunc u x d = if is_nat x then Ok NaT
+                     else match as_cr u x with None => Panic UnwrapNone | Some _ => Panic OtherPanic end.
+Proof. exact dt_trunc_nat_duration. Qed.
+
+Theorem C16_nat_neg_unchanged : forall d, td_is_nat d = true -> td_neg d = d.
+Proof. exact td_neg_nat_unchanged. Qed.
+
+Theorem C16_nat_result_converse_refuted :
+  (td_is_nat (mktd (-1) 0) = false /\ td_is_nat (mktd (-2147483647) 0) = false
+   /\ td_add (mktd (-1) 0) (mktd (-2147483647) 0) = Ok td_nat)
+  /\ (td_is_nat (mktd 2147483647 0) = false /\ td_sub (mktd (-1) 0) (mktd 2147483647 0) = Ok td_nat)
+  /\ (td_is_nat (mktd (-1073741824) 0) = false /\ td_mul (mktd (-1073741824) 0) 2 = Ok td_nat)
+  /\ (is_nat 0 = false /\ td_is_nat (mktd 0 i64_min) = false /\ time_add 0 (mktd 0 i64_min) = Ok NaT)
+  /\ (is_nat i64_max = false /\ td_is_nat (mktd 0 1) = false /\ dt_add Nano i64_max (mktd 0 1) = Ok NaT).
+Proof. exact nat_result_converse_refuted. Qed.
+
+(* ---- non-vacuity of the audit theorems ---------------------------------------------------------------------------- *)
+Example C16_ex_audit_closed_form :
+  (* every branch of conv_spec; the panic; the overflow boundary of s -> ns *)
+  into_unit Milli Milli (-5) = Ok (-5) /\ into_unit Sec Nano NaT = Ok NaT
+  /\ into_unit Sec Nano 9223372036 = Ok 9223372036000000000 /\ into_unit Sec Nano 9223372037 = Panic Overflow
+  /\ finer Sec Nano = true /\ 9223372037 <> NaT /\ in_i64 (9223372037 * ratio Sec Nano) = false
+  /\ into_unit Nano Milli (-1) = Ok (-1).
+Proof. vm_compute. repeat split; discriminate. Qed.
+
+Example C16_ex_audit_not_identity :
+  (* coarsen-then-refine clears the sub-unit part; next to i64::MIN it overflows; monotone; composition *)
+  finer Sec Milli = true /\ -1500 <> NaT /\ in_i64 (-1500) = true
+  /\ into_unit Milli Sec (-1500) = Ok (-2) /\ into_unit Sec Milli (-2) = Ok (-2000) /\ (-1500) mod ratio Sec Milli = 500
+  /\ into_unit Milli Sec (i64_min + 1) = Ok (-9223372036854776)
+  /\ into_unit Sec Milli (-9223372036854776) = Panic Overflow
+  /\ finer Micro Nano = true /\ finer Milli Micro = true
+  /\ (do y <- into_unit Nano Micro (-1234567); into_unit Micro Milli y) = Ok (-2)
+  /\ into_unit Nano Milli (-1234567) = Ok (-2).
+Proof. vm_compute. repeat split; discriminate. Qed.
+
+Example C16_ex_audit_chrono :
+  (* s -> ns outside the i64 window: the library route gives NaT, into_unit panics; inside they agree *)
+  finer Sec Nano = true /\ as_cr Sec 9223372037 = Some (mkcr 9223372037 0)
+  /\ in_i64 (9223372037 * ratio Sec Nano) = false /\ from_cr Nano (mkcr 9223372037 0) = Ok NaT
+  /\ as_cr Sec (-7) = Some (mkcr (-7) 0) /\ from_cr Nano (mkcr (-7) 0) = Ok (-7000000000)
+  /\ as_cr Sec 8210298412800 = None /\ Sec <> Nano
+  /\ date_in_range (8210298412800 / per_sec Sec / SECS_PER_DAY) = false
+  /\ as_cr Nano i64_max = Some (mkcr 9223372036 854775807).
+Proof. vm_compute. repeat split; discriminate. Qed.
+
+Example C16_ex_audit_fields :
+  (* 1969-12-31 23:59:59.999 at ms resolution: the fields rebuild the instant -1 ms *)
+  as_cr Milli (-1) = Some (mkcr (-1) 999000000)
+  /\ dt_field cr_year Milli (-1) = Some 1969 /\ dt_field cr_hour Milli (-1) = Some 23
+  /\ ((days_of_civil (1969, 12, 31) * 86400 + 23 * 3600 + 59 * 60 + 59) * 1000000000 + 999000000 = instant_ns Milli (-1))
+  /\ date_in_range 11016 = true /\ from_naive_date Micro 11016 = Ok 951782400000000 /\ 951782400000000 <> NaT
+  /\ dt_field cr_month Micro 951782400000000 = Some 2 /\ dt_field cr_dom Micro 951782400000000 = Some 29
+  /\ from_naive_date Nano 200000 = Ok NaT /\ from_naive_date Sec 200000 = Ok 17280000000.
+Proof. vm_compute. repeat split; discriminate. Qed.
+
+Example C16_ex_audit_trunc_nat :
+  td_is_nat (mktd i32_min 5) = true /\ dt_trunc Sec 0 (mktd i32_min 5) = Panic OtherPanic
+  /\ dt_trunc Sec i64_max (mktd i32_min 5) = Panic UnwrapNone /\ dt_trunc Sec NaT (mktd i32_min 5) = Ok NaT
+  /\ td_div (mktd i32_min 0) (mktd 0 1) = Panic OtherPanic /\ td_neg (mktd i32_min 5) = mktd i32_min 5.
+Proof. vm_compute. repeat split. Qed.
+
 Print Assumptions C16_nat_conv_unit.
 Print Assumptions C16_nat_ops_datetime.
 Print Assumptions C16_coarsen_floor.
@@ -198,3 +386,23 @@ Print Assumptions C16_try_from_nat.
 Print Assumptions C16_try_from_roundtrip.
 Print Assumptions C16_try_from_valid_only.
 Print Assumptions C16_to_cr.
+Print Assumptions C16_into_unit_closed_form.
+Print Assumptions C16_into_unit_panics_iff.
+Print Assumptions C16_into_unit_returns_iff.
+Print Assumptions C16_valid_stays_valid.
+Print Assumptions C16_conversion_monotone.
+Print Assumptions C16_coarsen_compose.
+Print Assumptions C16_coarsen_refine.
+Print Assumptions C16_coarsen_refine_identity_iff.
+Print Assumptions C16_refine_as_chrono.
+Print Assumptions C16_refine_chrono_differs.
+Print Assumptions C16_as_chrono_all_pairs.
+Print Assumptions C16_as_cr_none_iff.
+Print Assumptions C16_fields_reconstruct.
+Print Assumptions C16_defaults_and_none.
+Print Assumptions C16_from_naive_date_value.
+Print Assumptions C16_from_naive_date_fields.
+Print Assumptions C16_cast_views.
+Print Assumptions C16_nat_div_panics.
+Print Assumptions C16_nat_trunc_duration.
+Print Assumptions C16_nat_result_converse_refuted.
